@@ -39,6 +39,10 @@ CHECKS = {
   text="Property-based testing over generated multi-processor machines, stimuli, seeded schedule perturbation (verif-tagged yield hook, GOMAXPROCS 1..16) and concurrency plans (copies of the same machine sharing one Bondmachine, different machines, concurrent SinglePipelineSimulate): the per-tick digest of the complete VM state must equal the solo unperturbed run; the same binary runs under the Go race detector (a report is a violation). Exploration of schedules, not exhaustive. Found D7 and D11 (both fixed in /repo).",
   note="Trusted: digest covers processors' PC/registers/memory/ports/flags/deferred and extra state and all bond registers; the race detector; schedules the hook and GOMAXPROCS cannot provoke are not explored.",
   technique="property-based testing (rapid) with injected-yield schedule fuzzing, differential against the solo run, plus the race detector as sanitizer"),
+ "C11": dict(
+  text="Property-based testing of save/load: random single machines and BondMachines built through the public API (all static opcodes, one instance per dynamic family, modes, WordSize, Threaded, every shared-object kind with multi-attachment, fan-out, shared and unused domains) plus simulatable handshake machines are saved and reloaded by the CLI sequence (half of the loads in a fresh registry, some without linear-quantizer ranges); oracle: nothing dropped, reflection walk of the live structs equal, save(load(save)) byte-identical, a reflection-found field perturbation must change the JSON and survive (catches fields forgotten in the *_json types), simulation digests equal, regenerated Verilog byte-identical on a sampled share; plus a sweep of every opcode/dynamic name. Found the silent nil-opcode load (fixed in /repo).",
+  note="Trusted: the reflection walk with its documented exemptions (nil=empty slice, caches set by Write_verilog), the registry reset that makes each case independent.",
+  technique="property-based testing (rapid): round-trip oracle with reflection-driven structural equality and field perturbation; bounded sweep over opcodes"),
  "C12": dict(
   text="Property-based testing of the Go-subset compiler through its real CLI: grammar-generated programs (register and RAM variables, + * ==, ++/--, if/for/switch, inlined functions, IO, a share of unsupported operators that must be rejected, -mpm workers and channels) are compiled as child processes under a hard deadline for several forced schedule plans (verif-tagged scheduling points + GOMAXPROCS): the compiler must terminate, emit byte-identical assembly and machine JSON across plans, and — where the emitted machine uses faithfully simulated opcodes — write the same output streams as an independent AST evaluator of the source with wrap-around. Found D8 (hang) and a map-order nondeterminism (both fixed) and four miscompilation classes recorded as known findings.",
   note="Trusted: the reference evaluator harness/c12/ref.go, the hang classifier (goroutine dump), the faithful-opcode list for semantic verdicts. Programs compiling to r2m/m2r/channel opcodes get termination and determinism verdicts only.",
@@ -60,7 +64,6 @@ CHECKS = {
 PENDING = {
  "C05": "check under construction (planned: reference interpreter of BASM source vs simulation)",
  "C07": "check under construction (planned: repeated-run byte equality)",
- "C11": "check under construction (planned: save/load round-trip with reflection walk)",
  "C15": "check under construction (planned: rule print/parse round-trip + trace predictor)",
  "C16": "check under construction (planned: independent well-formedness validator over front-end outputs)",
  "C18": "check under construction (planned: lint of generated file sets with /verif's Verilog front end)",
